@@ -155,6 +155,7 @@ func runC19(c *mon.Ctx) {
 			}
 			parserCases(c, i, r, s, m)
 		}
+		pendingThenCompleteCase(c, i, r)
 		if i < 2 {
 			c.Sample("streams", map[string]any{"packets": len(s.Packets), "clean": clean, "predicates": "pid-set, continuity-counter, pusi, not-pusi, af-rai, af-pcr, has-af, coin, skip-all, skip-none"})
 		}
@@ -624,4 +625,86 @@ func parserCases(c *mon.Ctx, idx int64, r *rand.Rand, s *gen.Stream, m *gen.Mode
 		c.Violate("C19/parser/error-not-surfaced", "streams", idx, fmt.Sprintf("parser failed on group %d of %d (streaming path), no returned error wraps it", failAt, len(s.Units)), data)
 	}
 	c.Case(mon.HashBytes("c19p", s.Bytes), len(groups) >= 2)
+}
+
+// pendingThenCompleteCase: on a program map PID a unit is still waiting for the next unit start to be flushed — a private section
+// the completeness probe knows nothing about, or a PMT that arrived before the PAT announced its PID — when that next unit arrives
+// in one packet and is complete at once. One packet completes two units; the parser must be handed both, in order, once.
+func pendingThenCompleteCase(c *mon.Ctx, idx int64, r *rand.Rand) {
+	pmtPID := uint16(0x100 + r.IntN(0x800))
+	mkPMT := func(serial int) []byte {
+		sec := gen.SimpleSection(r, refts.KindPMT, serial, r.IntN(40))
+		return gen.NewPSIUnit(r, pmtPID, serial, []*astits.PSISection{sec}, 0, false).Payload
+	}
+	private := func() []byte {
+		n := 1 + r.IntN(120)
+		b := []byte{0, 0xC0 + byte(r.IntN(0x3e)), 0x30 | byte(n>>8), byte(n)} // pointer_field 0, a user private table id, no syntax section
+		return append(b, gen.Bytes(r, n)...)
+	}
+	pat := gen.SimpleSection(r, refts.KindPAT, 1, 0)
+	pat.Syntax.Data.PAT.Programs = []*astits.PATProgram{{ProgramNumber: 1, ProgramMapID: pmtPID}}
+	patUnit := gen.NewPSIUnit(r, 0, 1, []*astits.PSISection{pat}, 0, false).Payload
+	type up struct {
+		pid uint16
+		pay []byte
+	}
+	var units []up
+	variant := []string{"private-section-then-pmt", "pmt-before-pat-then-pmt"}[idx%2]
+	if variant == "private-section-then-pmt" {
+		units = []up{{0, patUnit}, {pmtPID, mkPMT(1)}, {pmtPID, private()}, {pmtPID, mkPMT(2)}, {pmtPID, private()}, {pmtPID, private()}, {pmtPID, mkPMT(3)}}
+	} else {
+		units = []up{{pmtPID, mkPMT(1)}, {0, patUnit}, {pmtPID, mkPMT(2)}, {pmtPID, mkPMT(3)}}
+	}
+	var stream []byte
+	cc := map[uint16]uint8{}
+	for _, u := range units {
+		if len(u.pay) > 184 {
+			return
+		}
+		p := gen.BuildPacket(u.pid, cc[u.pid], true, u.pay, nil, true)
+		cc[u.pid]++
+		b, _ := refts.EncodePacket(p, nil)
+		stream = append(stream, b...)
+	}
+	var got []up
+	cfg := baseCfg("data")
+	cfg.Parser = func(ps []*astits.Packet) ([]*astits.DemuxerData, bool, error) {
+		g := up{pid: ps[0].Header.PID}
+		for _, p := range ps {
+			g.pay = append(g.pay, p.Payload...)
+		}
+		got = append(got, g)
+		return nil, false, nil
+	}
+	run := RunDemux(stream, cfg)
+	data := map[string]any{"variant": variant, "stream": mon.Hex(stream, 1600)}
+	c.Count("streams_where_one_packet_completes_two_units")
+	if run.Panic != "" {
+		c.Violate("C19/parser/panic", "streams", idx, run.Panic, data)
+		return
+	}
+	// per PID, in order, each unit once (payloads are padded with 0xFF to the packet: compare the prefix)
+	for _, pid := range []uint16{0, pmtPID} {
+		var w, g []up
+		for _, u := range units {
+			if u.pid == pid {
+				w = append(w, u)
+			}
+		}
+		for _, u := range got {
+			if u.pid == pid {
+				g = append(g, u)
+			}
+		}
+		if len(g) != len(w) {
+			c.Violate("C19/parser/unit-not-seen-exactly-once:"+variant, "streams", idx, fmt.Sprintf("pid %#x: %d units handed to the parser, the stream carries %d", pid, len(g), len(w)), data)
+			return
+		}
+		for k := range w {
+			if !bytes.HasPrefix(g[k].pay, w[k].pay) {
+				c.Violate("C19/parser/unit-not-seen-exactly-once:"+variant, "streams", idx, fmt.Sprintf("pid %#x: unit %d handed to the parser is not unit %d of the stream", pid, k, k), data)
+				return
+			}
+		}
+	}
 }
